@@ -380,7 +380,8 @@ pub fn config_dims(b: &[u8]) -> Option<(u32, u32)> {
 }
 
 pub fn chunk_len(cx: &Cx) -> usize {
-    *cx.pick(&[16usize, 0, 1, 15, 17, 32, 96, 255, 2, 8])
+    // the usual sizes mostly; one time in five any length up to the maximum (the middle of the range)
+    if cx.chance(1, 5) { cx.draw(256) as usize } else { *cx.pick(&[16usize, 0, 1, 15, 17, 32, 96, 255, 2, 8]) }
 }
 
 /// A message from the whole alphabet (controller→sign, sign→controller, unknown), any address.
